@@ -34,8 +34,10 @@ SnapRecs == ndJsonDeserialize(IOEnv.TRACE_FILE \o ".snaps")
 ModOf(name) == ModRecs[SeqIndex(ModRecs, LAMBDA r : r.mod = name)]
 SnapOf(h) == SnapRecs[SeqIndex(SnapRecs, LAMBDA r : r.h = h)].d
 
-VARIABLE i
-vars == <<i>>
+\* gFresh: what the model compiles from the fresh parses (FreshTab), computed by the first step and
+\* carried along (TLC does not cache a definition of this size)
+VARIABLES i, gFresh
+vars == <<i, gFresh>>
 
 V(vi, s, check, verdict, detail) ==
   [vi |-> vi, codec |-> s.codec, ne |-> s.ne, check |-> check, verdict |-> verdict, detail |-> detail]
@@ -59,11 +61,6 @@ Hit(M, s) ==
                     \cup (IF AnyParam(M) THEN {"DevDefaultsBeforeParameterization"} ELSE {})
     [] s.a = "P" -> {"DevPformatSortsDicts"}
     [] OTHER -> {}
-
-\* candidate subsets: none, all, then the rest by size
-Candidates(H) ==
-  <<{}>> \o (IF H = {} THEN <<>> ELSE <<H>>)
-  \o SetToSortSeq(SUBSET H \ {{}, H}, LAMBDA x, y : Cardinality(x) < Cardinality(y))
 
 ObsErr(s) == IF s.st = "ok" THEN "" ELSE IF s.st = "exc" THEN s.cls ELSE "timeout"
 
@@ -115,16 +112,22 @@ DiffMods(A, B) ==
 \* the observed dictionary before step k (= after step k - 1)
 Before(L, d0, k) == IF k = 1 THEN d0.mods ELSE SnapOf(L.steps[k - 1].after).mods
 
+\* expensive predicates are evaluated once each: none, then all reachable deviations, then the rest
 MechVerdict(L, d0, k) ==
   LET s == L.steps[k]
       B == Before(L, d0, k)
       A == Before(L, d0, k + 1)
-      cands == Candidates(Hit(B, s))
+      H == Hit(B, s)
       explains(S) == LET r == ApplyStep(B, s, d0.order, S) IN r.m = A /\ r.err = ObsErr(s)
-      first == SeqIndex(cands, explains)
+      e0 == explains({})
+      eH == H # {} /\ explains(H)
+      rest == SetToSortSeq(SUBSET H \ {{}, H}, LAMBDA x, y : Cardinality(x) < Cardinality(y))
+      eRest == Force([q \in 1..Len(rest) |-> explains(rest[q])])
   IN IF s.alias # 0 THEN V(k, s, "MECH", "reject", "aliasing: " \o ToString(s.alias) \o " shared sub-dictionaries the model does not know")
-     ELSE IF first > 0 THEN V(k, s, "MECH", "ok", ToString(cands[first]))
-     ELSE LET r == ApplyStep(B, s, d0.order, Hit(B, s))
+     ELSE IF e0 THEN V(k, s, "MECH", "ok", "{}")
+     ELSE IF eH THEN V(k, s, "MECH", "ok", ToString(H))
+     ELSE IF \E q \in 1..Len(rest) : eRest[q] THEN V(k, s, "MECH", "ok", ToString(rest[CHOOSE q \in 1..Len(rest) : eRest[q]]))
+     ELSE LET r == ApplyStep(B, s, d0.order, H)
           IN V(k, s, "MECH", "reject",
                IF r.err # ObsErr(s) THEN "in-place rewrite the model does not know: model raises '" \o r.err \o "', observed '" \o ObsErr(s) \o "'"
                ELSE "in-place rewrite the model does not know: " \o DiffMods(r.m, A))
@@ -148,7 +151,19 @@ HistCands(L, d0, k) ==
 
 Mech == {MechanismDevs[q] : q \in 1..Len(MechanismDevs)}
 
-BehVerdict(L, mrec, k) ==
+\* the sets of history deviations, smallest first
+HistSubsets ==
+  << {}, {HistoryDevs[1]}, {HistoryDevs[2]}, {HistoryDevs[3]},
+     {HistoryDevs[1], HistoryDevs[2]}, {HistoryDevs[1], HistoryDevs[3]}, {HistoryDevs[2], HistoryDevs[3]},
+     {HistoryDevs[1], HistoryDevs[2], HistoryDevs[3]} >>
+
+\* what the model compiles from the fresh parse: per module, numeric_enums, deviation set
+FreshTab ==
+  Force([m \in 1..Len(ModRecs) |->
+    Force([b \in 1..2 |->
+      Force([c \in 1..Len(HistSubsets) |-> Compile(SnapOf(ModRecs[m].d0h).mods, b = 2, Mech \cup HistSubsets[c])])])])
+
+BehVerdict(L, mrec, k, ft) ==
   LET s == L.steps[k]
       d0 == mrec.d0
       f == FreshEntry(mrec, s)
@@ -157,16 +172,27 @@ BehVerdict(L, mrec, k) ==
   IN IF ~compileDiffers /\ dts = <<>> THEN V(k, s, "BEH", "ok", "")
      ELSE LET what == IF compileDiffers THEN "compile_dict: history '" \o s.st \o " " \o s.msg \o "', fresh '" \o f.st \o " " \o f.msg \o "'"
                       ELSE "types " \o ToString(dts)
-              predicts(C) ==
-                LET S == Mech \cup C
+              mi == SeqIndex(ModRecs, LAMBDA r : r.mod = L.mod)
+              hc == HistCands(L, d0, k)
+              predicts(c) ==
+                LET S == Mech \cup HistSubsets[c]
                     ch == Compile(ModelBefore(d0, L.hist, k, S), s.ne, S)
-                    cf == Compile(d0.mods, s.ne, S)
+                    cf == ft[mi][IF s.ne THEN 2 ELSE 1][c]
                 IN IF compileDiffers THEN ch.err # cf.err
-                   ELSE View(ch) # View(cf) /\ \A q \in 1..Len(dts) : dts[q] # "*" /\ TypeDiffers(ch, cf, dts[q])
-              cs == SetToSortSeq(SUBSET HistCands(L, d0, k) \ {{}},
-                                 LAMBDA x, y : Cardinality(x) < Cardinality(y))
-              hit == SeqIndex(cs, predicts)
-          IN IF hit > 0 THEN V(k, s, "BEH", "dev", ToString(cs[hit]))
+                   ELSE /\ ch.err = "" /\ cf.err = ""
+                        /\ LET dns == DiffNamesAll(ch, cf)
+                           IN \A q \in 1..Len(dts) : dts[q] # "*" /\ TypeDiffersGiven(ch, cf, dns, dts[q])
+              ofSize(n) == SelectSeq(Idx(Len(HistSubsets)), LAMBDA c : Cardinality(HistSubsets[c]) = n /\ HistSubsets[c] \subseteq hc)
+              c1 == ofSize(1)
+              c2 == ofSize(2)
+              c3 == ofSize(3)
+              p1 == Force([q \in 1..Len(c1) |-> predicts(c1[q])])
+              p2 == Force([q \in 1..Len(c2) |-> predicts(c2[q])])
+              p3 == Force([q \in 1..Len(c3) |-> predicts(c3[q])])
+              pick(cs, ps) == HistSubsets[cs[CHOOSE q \in 1..Len(cs) : ps[q] /\ \A r \in 1..(q - 1) : ~ps[r]]]
+          IN IF \E q \in 1..Len(c1) : p1[q] THEN V(k, s, "BEH", "dev", ToString(pick(c1, p1)))
+             ELSE IF \E q \in 1..Len(c2) : p2[q] THEN V(k, s, "BEH", "dev", ToString(pick(c2, p2)))
+             ELSE IF \E q \in 1..Len(c3) : p3[q] THEN V(k, s, "BEH", "dev", ToString(pick(c3, p3)))
              ELSE V(k, s, "BEH", "reject", "behaves unlike a fresh compile and the mechanism model does not predict it: " \o what)
 
 LateVerdict(L, k) ==
@@ -174,21 +200,21 @@ LateVerdict(L, k) ==
   IN IF s.late = s.beh THEN V(k, s, "LATE", "ok", "")
      ELSE V(k, s, "LATE", "reject", "codec object changed behaviour after later steps: " \o ToString(DiffTypes(s.late, s.beh)))
 
-StepVerdicts(L, mrec, k) ==
+StepVerdicts(L, mrec, k, ft) ==
   LET s == L.steps[k]
   IN <<MechVerdict(L, mrec.d0, k)>>
-     \o (IF s.a = "C" THEN <<BehVerdict(L, mrec, k)>> ELSE <<>>)
+     \o (IF s.a = "C" THEN <<BehVerdict(L, mrec, k, ft)>> ELSE <<>>)
      \o (IF s.a = "C" /\ s.st = "ok" THEN <<LateVerdict(L, k)>> ELSE <<>>)
 
-HistVerdicts(L) ==
+HistVerdicts(L, ft) ==
   LET m == ModOf(L.mod)
       mrec == [d0 |-> SnapOf(m.d0h), d0h |-> m.d0h, fresh |-> m.fresh]
   IN IF L.d0h # mrec.d0h THEN <<V(0, NoStep, "PARSE", "reject", "two parses of the same text differ")>>
      ELSE IF mrec.d0.alias # 0 THEN <<V(0, NoStep, "PARSE", "reject", "parser output shares sub-dictionaries")>>
-     ELSE <<V(0, NoStep, "PARSE", "ok", "")>> \o Concat([k \in 1..Len(L.steps) |-> StepVerdicts(L, mrec, k)])
+     ELSE <<V(0, NoStep, "PARSE", "ok", "")>> \o Concat([k \in 1..Len(L.steps) |-> StepVerdicts(L, mrec, k, ft)])
 
-LineReport(L) ==
-  LET all == CASE L.ev = "hist" -> HistVerdicts(L)
+LineReport(L, ft) ==
+  LET all == CASE L.ev = "hist" -> HistVerdicts(L, ft)
                [] OTHER -> <<V(0, NoStep, "ANY", "machinery", L.why)>>
   IN [cid |-> L.cid, n |-> Len(all),
       ok |-> Len(SelectSeq(all, LAMBDA r : r.verdict = "ok")),
@@ -198,10 +224,11 @@ Emit(r) ==
   Serialize(ToJson(r) \o "\n", IOEnv.VERDICT_FILE,
             [format |-> "TXT", charset |-> "UTF-8", openOptions |-> <<"WRITE", "CREATE", "APPEND">>]).exitValue = 0
 
-Init == i = 1
+Init == i = 1 /\ gFresh = <<>>
 
 Next == /\ i <= Len(Tr)
-        /\ Emit(LineReport(Tr[i]))
+        /\ LET ft == IF gFresh = <<>> THEN FreshTab ELSE gFresh
+           IN Emit(LineReport(Tr[i], ft)) /\ gFresh' = ft
         /\ i' = i + 1
 
 Spec == Init /\ [][Next]_vars
